@@ -9,7 +9,7 @@ use alloc::rc::Rc;
 use alloc::string::ToString;
 use alloc::string::String;
 use alloc::format;
-use chrono::{Datelike, NaiveDateTime, Timelike, Utc};
+use chrono::{Datelike, NaiveDateTime, Timelike};
 use chrono::TimeZone;
 use crate::session::Session;
 use crate::compiler::duration::DurationItem;
@@ -80,7 +80,7 @@ impl DataItem for DateTimeItem {
         let tz_offset = chrono::FixedOffset::east(self.1.offset * 60);
         let datetime = tz_offset.from_utc_datetime(&self.0);
         
-        let date_format = match datetime.year() == Utc::now().date().year() {
+        let date_format = match datetime.year() == session.now().year() {
             true => format.date.get("current_year_with_time"),
             false => format.date.get("full_date_time")
         };
